@@ -21,8 +21,9 @@ import vlib
 from gen import coverage as G
 
 ID = "C05"
-PROPS = ["IsoVerif/Props/C05.lean", "IsoVerif/Props/C05Multi.lean", "IsoVerif/Props/C05Printers.lean"]
-TARGETS = ["IsoVerif.Props.C05", "IsoVerif.Props.C05Multi", "IsoVerif.Props.C05Printers"]
+PROPS = ["IsoVerif/Props/C05.lean", "IsoVerif/Props/C05Multi.lean", "IsoVerif/Props/C05Printers.lean",
+         "IsoVerif/Props/C05Edge.lean"]
+TARGETS = ["IsoVerif.Props.C05", "IsoVerif.Props.C05Multi", "IsoVerif.Props.C05Printers", "IsoVerif.Props.C05Edge"]
 GEN_DEPS = ["Prims", "Constants", "Enums", "EventClasses", "PrinterTables"]
 LEVEL = "proof"
 RULE = ("synthetic coverage dictionaries (bin counts 1..520 around the 128-bin minimum, thresholds at the 1 % boundary, "
@@ -44,8 +45,13 @@ TRUSTED = ["pysam fetch(chr, a, b+1) = records overlapping [a, b] in file order 
 ASSUMPTIONS = ["CPython int semantics = Lean Int; x // 256 = Int ediv for the positive divisor",
                "cov > max(1, max_cov * 0.01) evaluated in floats equals cov > 1 and 100 * cov > max_cov (max_cov < 1e13); "
                "the correspondence hits max_cov in {99, 100, 101} x cov",
-               "alignments are well formed (reference_end > reference_start); a placed unmapped record (reference_end None) "
-               "aborts the run with TypeError and is outside the quantifier",
+               "alignments are well formed (reference_end > reference_start) or have no reference span at all (reference_end "
+               "None: placed unmapped read / record without CIGAR - skipped by the merger after the c05edge repair, "
+               "Props/C05Edge.lean; pysam returns such a record from fetch when its ONE base lies in the window: checked on a "
+               "real BAM in every run)",
+               "a record without CIGAR that is not flagged unmapped belongs to no statistics category (reading rule, docs/C05.md 8)",
+               "a read is a query name (reading rule): with >= 2 primary records of one name the per-name clauses are checked, "
+               "the per-alignment clause is classified, not flagged (edge_domain_classification in the evidence)",
                "records fetched for a chromosome always have reference_id != -1",
                "several BAM files: every file is sorted by reference_start and all files of an experiment share the reference "
                "(the collector reads the chromosome length from the first file); ValidFiles in Props/C05Multi.lean"]
@@ -108,7 +114,9 @@ class FakeBam:
         self.objs = objs
 
     def fetch(self, chr_id, start, end, multiple_iterators=False):
-        return iter([a for a in self.objs if a.reference_start < end and a.reference_end > start])
+        # htslib: a record without reference span (reference_end None: placed unmapped read / no CIGAR) covers ONE base
+        return iter([a for a in self.objs if a.reference_start < end and
+                     (a.reference_start + 1 if a.reference_end is None else a.reference_end) > start])
 
     def get_reference_length(self, chr_id):
         return 10 ** 12
@@ -492,6 +500,9 @@ def correspondence(ctx):
     #    composite printer on generated records, the generated event-name table, merge_files (props/C15print.py)
     from props import C15print
     C15print.correspondence(ctx)
+    # 9. records without reference span through the real loop, the BED printer on retained records (Props/C05Edge.lean)
+    from props import C05edge
+    C05edge.correspondence(ctx)
 
 
 def _first_cluster(alns):
@@ -687,10 +698,19 @@ def build_dataset(spec):
             continue
         if min_mapq and a[2] == 0 and a[4] % 37 == 5:
             a = [a[0], a[1], a[2], min_mapq - 1 - (a[4] % 3), a[4]]    # primary records below --min_mapq: filtered
+        elif spec.get("low_mapq") and a[2] == 0 and a[4] % 29 == 3:
+            a = [a[0], a[1], a[2], (a[4] // 29) % 6, a[4]]              # primary records with MAPQ 0..5
         ds.add_read(name, "chrS", a[0], "%dM" % (a[1] - a[0]), flag=flag, mapq=a[3])
         cats["secondary" if a[2] & 1 else "supplementary" if a[2] & 2 else "primary"] += 1
-        if not a[2] & 3 and a[3] >= max(min_mapq, 5):
-            expected[name] += 1
+        # the filter model (docs/cmd.md + process_genic / process_intergenic): --min_mapq first; then, with an annotation,
+        # an alignment that is not consistent with an isoform needs MAPQ >= inconsistent_mapq_cutoff (5) where its
+        # (sub-)region loads a gene and an alignment with <= 2 exons needs MAPQ >= simple_alignments_mapq_cutoff (1) where
+        # it does not; without annotation only the latter.  All reads here are unspliced.
+        if not a[2] & 3 and a[3] >= min_mapq:
+            if a[3] >= 5 or (not spec.get("genes") and a[3] >= 1):
+                expected[name] += 1
+            elif spec.get("genes"):
+                optional.add(name)   # MAPQ 0..4 with an annotation: reported or not depending on the sub-region (and on consistency)
         elif a[2] & 1 and not a[2] & 2:
             optional.add(name)     # a secondary record may be reported (not constrained by the statement)
     for i in range(spec.get("unmapped", 0)):
@@ -800,7 +820,7 @@ def oracle(ctx, disagreements, broken):
     from props import C15print
     C15print.oracle(ctx)
     # 1. seeded with the disagreeing inputs
-    for d in disagreements[:40]:
+    for d in [x for x in disagreements if x["op"] not in ("collect_raw", "raw_stats", "bed_lines")][:40]:
         inp = d["input"]
         alns = None
         if isinstance(inp, dict) and "alns" in inp and isinstance(inp["alns"], list) and inp["alns"]:
@@ -861,19 +881,21 @@ def oracle(ctx, disagreements, broken):
     # 3. the real pipeline on synthetic BAMs (both memory modes each)
     specs = list(REGRESSION_SPECS)
     specs[0] = dict(specs[0], genes=True)
+    specs[1] = dict(specs[1], low_mapq=True)
+    specs[2] = dict(specs[2], genes=True, low_mapq=True)
     specs[3] = dict(specs[3], genes=True, unmapped=2)
     if quick:
         for i in range(8):
             specs.append({"kind": rng.choice(["pile_bridge_tail", "final_bin_valley", "single_bin", "first_base", "long_ladder",
                                               "two_piles", "random_profile", "thin_long"]),
                           "seed": rng.randint(0, 10 ** 6), "genes": rng.random() < 0.5,
-                          "min_mapq": rng.choice([0, 10]), "unmapped": rng.choice([0, 1])})
+                          "min_mapq": rng.choice([0, 10]), "unmapped": rng.choice([0, 1]), "low_mapq": rng.random() < 0.7})
     else:
         for i in range(100):
             specs.append({"kind": rng.choice(["pile_bridge_tail", "final_bin_valley", "single_bin", "first_base", "long_ladder",
                                               "two_piles", "random_profile", "thin_long"]),
                           "seed": rng.randint(0, 10 ** 6), "genes": rng.random() < 0.5,
-                          "min_mapq": rng.choice([0, 0, 10]), "unmapped": rng.choice([0, 3])})
+                          "min_mapq": rng.choice([0, 0, 10]), "unmapped": rng.choice([0, 3]), "low_mapq": rng.random() < 0.7})
     for spec in specs:
         if ctx.elapsed() > (150 if quick else 1000):
             ctx.notes.append("pipeline oracle stopped early (time budget)")
@@ -887,6 +909,9 @@ def oracle(ctx, disagreements, broken):
     # 4. experiments made of several BAM files
     from props import C05multi
     C05multi.oracle(ctx, disagreements, broken)
+    # 5. records the pipeline must digest, twin BED lines, repeated names, MAPQ 0..5 (props/C05edge.py)
+    from props import C05edge
+    C05edge.oracle(ctx, disagreements, broken)
 
 
 def _report_alns(ctx, alns, small=False):
@@ -910,6 +935,9 @@ def replay(ctx, failure):
         return check_records(inp["recs"]) is not None
     if inp.get("level") == "pipeline":
         return check_pipeline(inp["spec"]) is not None
+    if str(inp.get("level", "")).startswith("edge"):
+        from props import C05edge
+        return C05edge.replay(ctx, failure)
     if str(inp.get("level", "")).startswith("multi"):
         from props import C05multi
         return C05multi.replay(ctx, failure)
